@@ -27,13 +27,55 @@ import (
 //	ready   call Ready(ctx) in a new goroutine; readyc: its ctx can be cancelled with "cancel"
 //	cancel  cancel the ctx of consumer I
 //	rel     release consumer I from the hook
-//	ok/fail answer the outstanding issuer request (success with a long-lived cert / failure)
+//	ok/fail answer the outstanding issuer request (success with a long-lived cert / failure).  In a
+//	        readiness scenario the issuer keeps a request parked until one of these ops, also when the
+//	        ctx of the fetch (= Run's ctx) is done meanwhile.  E names the error VALUE of a failure
+//	        (errkinds.go; "own-ctx" / "own-ctx-wrapped" / "own-ctx-cause" = the Err() of the fetch ctx
+//	        itself, as returned by an issuer client that honours its ctx).  X: Run's ctx is ended INSIDE
+//	        the issuer callback, immediately before it returns (the answer coincides with the shutdown);
+//	        S = how ("" cancelled, "deadline" = its deadline passed)
+//	stoprun Run's ctx ends now (S as above): before Run is called, while the request is in flight, after
+//	        the issuer returned, while Run is held at the hook, after Run returned
 //	step    advance the fake clock past the half-life of the served cert (rotation issues a request)
 //	run2    call Run a second time
 //	q       settle and report which calls are pending
 type ROp struct {
 	Op string `json:"op"`
 	I  int    `json:"i,omitempty"`
+	E  string `json:"e,omitempty"`
+	X  bool   `json:"x,omitempty"`
+	S  string `json:"s,omitempty"`
+}
+
+// hctx is the context handed to Run in scenarios whose Run ctx ends by a passed deadline: done when the
+// harness says so, with the error the harness says (scenarios that only cancel use context.WithCancel).
+type hctx struct {
+	context.Context
+	done chan struct{}
+	mu   sync.Mutex
+	err  error
+}
+
+func newHctx() *hctx { return &hctx{Context: context.Background(), done: make(chan struct{})} }
+
+func (c *hctx) Done() <-chan struct{} { return c.done }
+func (c *hctx) Err() error {
+	c.mu.Lock()
+	defer c.mu.Unlock()
+	return c.err
+}
+func (c *hctx) finish(err error) {
+	c.mu.Lock()
+	if c.err == nil {
+		c.err = err
+		close(c.done)
+	}
+	c.mu.Unlock()
+}
+
+// endsRunCtx: the op ends Run's ctx (stoprun, or an answer with X).
+func (o ROp) endsRunCtx() bool {
+	return o.Op == "stoprun" || ((o.Op == "ok" || o.Op == "fail") && o.X)
 }
 
 type RScenario struct {
@@ -46,7 +88,17 @@ func (s RScenario) String() string {
 		if o.Op == "cancel" || o.Op == "rel" {
 			b = append(b, o.Op+strconv.Itoa(o.I))
 		} else {
-			b = append(b, o.Op)
+			w := o.Op
+			if o.E != "" {
+				w += "[" + o.E + "]"
+			}
+			if o.X {
+				w += "+stoprun-inside-issuer"
+			}
+			if o.S != "" {
+				w += "(" + o.S + ")"
+			}
+			b = append(b, w)
 		}
 	}
 	return strings.Join(b, " ")
@@ -63,6 +115,8 @@ type rOutcome struct {
 	// CalledBeforeRun: consumers whose call was made before Run was called.
 	BeforeRun []int  `json:"before_run"`
 	NoRequest bool   `json:"no_request"` // an ok/fail op found no outstanding issuer request by the deadline
+	// RunCtxEnded: Run's ctx was ended by the scenario (not by the clean-up)
+	RunCtxEnded bool `json:"run_ctx_ended,omitempty"`
 	Panic     string `json:"panic,omitempty"`
 }
 
@@ -99,7 +153,7 @@ func runReady(sc RScenario, ca *fakeCA, settle, deadline time.Duration) rOutcome
 		mu.Unlock()
 	}
 	clk := newVClock(T0)
-	is := &issuer{ca: ca, clk: clk, gate: make(chan Item), reqCh: make(chan int, 64)}
+	is := &issuer{ca: ca, clk: clk, gate: make(chan Item), reqCh: make(chan int, 64), ignoreCtx: true, quit: make(chan struct{})}
 	is.onReq = func(idx int) { ev("req:" + strconv.Itoa(idx)) }
 	s := spiffe.New(spiffe.Options{Log: quietLog, RequestSVIDFn: is.fn})
 	spiffe.VerifSetClock(s, clk)
@@ -147,7 +201,48 @@ func runReady(sc RScenario, ca *fakeCA, settle, deadline time.Duration) rOutcome
 	})
 	defer verifhook.Set(nil)
 
-	runCtx, runCancel := context.WithCancel(context.Background())
+	// Run's ctx: context.WithCancel, or (scenarios in which it ends by a deadline) a ctx whose Err() is
+	// context.DeadlineExceeded once the harness ends it
+	var runCtx context.Context
+	var endRun func(how string)
+	{
+		byDeadline := false
+		for _, op := range sc.Ops {
+			if op.endsRunCtx() && op.S == "deadline" {
+				byDeadline = true
+			}
+		}
+		if byDeadline {
+			h := newHctx()
+			runCtx = h
+			endRun = func(how string) {
+				if how == "deadline" {
+					h.finish(context.DeadlineExceeded)
+				} else {
+					h.finish(context.Canceled)
+				}
+			}
+		} else {
+			c, cancel := context.WithCancel(context.Background())
+			runCtx = c
+			endRun = func(string) { cancel() }
+		}
+	}
+	runCancel := func() { endRun("") }
+	// stopRun: the scenario ends Run's ctx (event "sx" first: whatever the code does because of it
+	// comes later in the trace)
+	stopRun := func(how string) {
+		mu.Lock()
+		out.RunCtxEnded = true
+		mu.Unlock()
+		ev("sx")
+		endRun(how)
+	}
+	is.beforeReturn = func(_ int, it Item) {
+		if it.endRun != "" {
+			stopRun(it.endRun)
+		}
+	}
 	cancels := map[int]context.CancelFunc{}
 	released := map[int]bool{}
 	cancelled := map[int]bool{}
@@ -334,10 +429,23 @@ func runReady(sc RScenario, ca *fakeCA, settle, deadline time.Duration) rOutcome
 			case <-is.reqCh:
 				ev("rep:" + map[string]string{"ok": "1", "fail": "0"}[op.Op])
 				// gated certs are valid [-1 min, +1 h] from the moment of the answer
-				is.gate <- Item{Kind: op.Op, A: -int64(time.Minute), B: int64(time.Hour)}
+				it := Item{Kind: op.Op, A: -int64(time.Minute), B: int64(time.Hour), Err: op.E}
+				if op.X {
+					it.endRun = "cancel"
+					if op.S != "" {
+						it.endRun = op.S
+					}
+				}
+				is.gate <- it
 			case <-time.After(deadline):
 				out.NoRequest = true
 			}
+		case "stoprun":
+			how := "cancel"
+			if op.S != "" {
+				how = op.S
+			}
+			stopRun(how)
 		case "step":
 			clk.Step(45 * time.Minute) // gated certs are valid [-1 min, +1 h]: half-life at +29.5 min
 		case "q":
@@ -373,6 +481,7 @@ func runReady(sc RScenario, ca *fakeCA, settle, deadline time.Duration) rOutcome
 	// clean up what can be cleaned up (after the snapshot: calls that return only because of the
 	// clean-up are not results of the scenario)
 	runCancel()
+	close(is.quit)
 	mu.Lock()
 	for i, ch := range relCh {
 		if !released[i] {
